@@ -64,7 +64,8 @@ Definition tp_norm (pers : perspective) (p : tparams) : tparams :=
        (if is_server pers then tp_srt p else None)
        (tp_acil p) (tp_mdfs p) (tp_rsa p)
        (option_map (fun m => m / TP_Microsecond * TP_Microsecond) (tp_minad p))
-       None.
+       None
+       (tp_mit p / TP_Millisecond * TP_Millisecond).
 
 (** the session-ticket form keeps nine fields; the rest are the defaults of [unmarshal] *)
 Definition tp_wf_ticket (p : tparams) : Prop :=
@@ -77,7 +78,7 @@ Definition tp_wf_ticket (p : tparams) : Prop :=
 Definition tp_norm_ticket (p : tparams) : tparams :=
   mkTP (tp_imsd_bl p) (tp_imsd_br p) (tp_imsd_uni p) (tp_imd p)
        TP_DefaultMaxAckDelay TP_DefaultAckDelayExponent false 0 (tp_mus p) (tp_mbs p) 0
-       None [] [] None None (tp_acil p) (tp_mdfs p) (tp_rsa p) None None.
+       None [] [] None None (tp_acil p) (tp_mdfs p) (tp_rsa p) None None 0.
 
 (** * The greased parameter never collides with a parameter the code knows *)
 
@@ -166,8 +167,9 @@ Lemma read_numeric_val id v p :
    else if id =? TP_ID_mus then
      if TP_MaxStreamCount <? v then Err E_TP_STREAMS_UNI 0 else Ok (set_mus v p)
    else if id =? TP_ID_mit then
-     if v =? 0 then Ok (set_mit 0 p)
-     else Ok (set_mit (Z.max TP_MinRemoteIdleTimeout (sat_duration v TP_Millisecond)) p)
+     if v =? 0 then Ok (set_amit 0 (set_mit 0 p))
+     else Ok (set_amit (sat_duration v TP_Millisecond)
+                (set_mit (Z.max TP_MinRemoteIdleTimeout (sat_duration v TP_Millisecond)) p))
    else if id =? TP_ID_mups then
      if v <? 1200 then Err E_TP_MUPS 0 else Ok (set_mups v p)
    else if id =? TP_ID_ade then
@@ -276,14 +278,15 @@ Qed.
 
 Lemma run_mit pers s d rest : 0 <= d <= maxInt64 ->
   tp_run pers s (enc_varint_param TP_ID_mit (d / TP_Millisecond) ++ rest) =
-  tp_run pers (upd (set_mit (norm_mit d)) (add_id TP_ID_mit s)) rest.
+  tp_run pers (upd (fun p => set_amit (d / TP_Millisecond * TP_Millisecond) (set_mit (norm_mit d) p)) (add_id TP_ID_mit s)) rest.
 Proof.
   intros Hd.
   assert (Hv : vwf (d / TP_Millisecond)) by (unfold vwf, TP_Millisecond, maxVarInt8, maxInt64 in *; lia).
-  rewrite (run_numeric pers s TP_ID_mit _ rest (set_mit (norm_mit d) (st_p s)));
+  rewrite (run_numeric pers s TP_ID_mit _ rest
+             (set_amit (d / TP_Millisecond * TP_Millisecond) (set_mit (norm_mit d) (st_p s))));
     [reflexivity|cbn; tauto|vwf_id|exact Hv|].
   rewrite read_numeric_val by exact Hv. tp_consts. cbn [Z.eqb Pos.eqb].
-  unfold norm_mit. destruct (d / TP_Millisecond =? 0); [reflexivity|].
+  unfold norm_mit. destruct (Z.eqb_spec (d / TP_Millisecond) 0) as [E|E]; [rewrite E; reflexivity|].
   rewrite sat_duration_small; [reflexivity | reflexivity | unfold TP_Millisecond in *; lia |].
   unfold TP_Millisecond, maxInt64 in *. lia.
 Qed.
@@ -585,9 +588,9 @@ Proof. intros H. destruct (Z.ltb_spec 0 m); lia. Qed.
 Ltac norm_st :=
   cbn [upd add_id add_id_if st_p st_odcid st_iscid st_ids st_init tp_init tp_zero
        set_imsd_bl set_imsd_br set_imsd_uni set_imd set_mad set_ade set_dam set_mups set_mus set_mbs set_mit
-       set_pa set_odcid set_iscid set_rscid set_srt set_acil set_mdfs set_rsa set_minad set_override
+       set_pa set_odcid set_iscid set_rscid set_srt set_acil set_mdfs set_rsa set_minad set_override set_amit
        tp_imsd_bl tp_imsd_br tp_imsd_uni tp_imd tp_mad tp_ade tp_dam tp_mups tp_mus tp_mbs tp_mit
-       tp_pa tp_odcid tp_iscid tp_rscid tp_srt tp_acil tp_mdfs tp_rsa tp_minad tp_override].
+       tp_pa tp_odcid tp_iscid tp_rscid tp_srt tp_acil tp_mdfs tp_rsa tp_minad tp_override tp_amit].
 
 (** * Round trip, server *)
 Theorem roundtrip_server rnd p :
@@ -724,7 +727,7 @@ Definition ex_pa : paddr :=
 Definition ex_tp : tparams :=
   mkTP 524288 524288 524288 786432 26000000 3 true 1452 100 100 30000000000
        (Some ex_pa) [1; 2; 3; 4; 5; 6; 7; 8] [9; 10; 11; 12] (Some []) (Some (pa_srt ex_pa))
-       4 1200 true (Some 1000000) None.
+       4 1200 true (Some 1000000) None 0.
 
 Lemma ex_tp_wf : tp_wf ex_tp.
 Proof.
